@@ -1045,6 +1045,8 @@ DO_FOCUS = {
     "cont": dict(derives="ContDerives", shapes="ContShapes", citems="ContainerAlpha", fitems="FieldAlphaSmall", vitems="VariantAlpha", mc=2, mf1=1, mf2=0, mv1=1, mv2=0),
     # every variant option, pairs on the first variant and one on the second, with and without container from_word
     "enum": dict(derives="EnumDerives", shapes="EnumShapes", citems="ContainerSmall", fitems="FieldAlphaSmall", vitems="VariantAlpha", mc=1, mf1=0, mf2=0, mv1=2, mv2=2),
+    # options on the field of a struct variant (live, skipped, `skip = false`): all singles and ordered pairs
+    "vfield": dict(derives="EnumDerives", shapes="EnumShapes", citems="ContainerSmall", fitems="FieldAlpha", vitems="VFieldVariant", mc=0, mf1=2, mf2=0, mv1=1, mv2=0),
     # every field option in every form: all singles, ordered pairs and ordered triples on one field, one more on a second field
     "field": dict(derives="FieldDerives", shapes="FieldShapes", citems="ContainerSmall", fitems="FieldAlpha", vitems="VariantAlpha", mc=0, mf1=3, mf2=1, mv1=0, mv2=0),
 }
@@ -1147,7 +1149,7 @@ DO_RULE = ("declarations are built option item by option item: every container o
 @plan("C06")
 def c06(run, selftest=True):
     run.build()
-    for fo in (["attr", "cont"] if run.tier == "quick" else ["attr", "cont", "enum", "field"]):
+    for fo in (["attr", "cont", "vfield"] if run.tier == "quick" else ["attr", "cont", "enum", "field", "vfield"]):
         deriveopts_stage(run, fo, is_totality, selftest and fo == "attr")
     deriveopts_trace_stage(run, False, 3000 if run.tier == "quick" else 40000, totality_only=True)
     run.assumptions = DO_ASSUME
@@ -1157,7 +1159,7 @@ def c06(run, selftest=True):
 @plan("C10")
 def c10(run, selftest=True):
     run.build()
-    for fo in (["cont", "enum", "field"] if run.tier == "quick" else ["attr", "cont", "enum", "field"]):
+    for fo in (["cont", "enum", "field", "vfield"] if run.tier == "quick" else ["attr", "cont", "enum", "field", "vfield"]):
         deriveopts_stage(run, fo, lambda m: not is_totality(m), selftest and fo == "cont")
     deriveopts_trace_stage(run, selftest, 2000 if run.tier == "quick" else 20000)
     run.assumptions = DO_ASSUME
@@ -1214,7 +1216,7 @@ def c20(run, selftest=True):
     q = run.tier == "quick"
     run.build()           # also compiles the whole generated receiver corpus (C01/C09/C16 option space) against the working tree
     outs = []
-    for fo in ("field", "cont", "enum"):
+    for fo in ("field", "cont", "enum", "vfield"):
         res = run.tlc("MC_DeriveOptions", DO_CFG % DO_FOCUS[fo], "c20_" + fo, workers=8, timeout=3000)
         run.require_tlc_ok(res, "DeriveOptions (%s)" % fo)
         outs.append(res["out"])
